@@ -249,6 +249,8 @@ for k, v in extra8b.items():
     claims[k] = (lvl, tech, text + v, note, ref)
 # round-9 additions
 extra9 = {
+ 'C01': ' Acceptability predicates classify the outcome only: none consults a context (R14).',
+ 'C04': ' context.Cause is never reported in place of the context\'s error (R7).',
  'C07': ' A function that runs a literal through SingleFlight.Do/DoEx writes the registry map only inside that literal (R13).',
  'C08': ' The decoder-output model (C17.R10: a YAML null stays null) runs under C08 (R19); the adapters\' pass-through rule follows variadic packs.',
  'C10': ' Finish/FinishVoid hand a non-empty list to the package\'s own pipeline exactly once with len(fns) workers and call nothing that recovers on its own (R12).',
